@@ -15,6 +15,8 @@ pub struct TaskSpec {
     pub interval_ms: i64,
     pub single: Option<usize>,
     pub priority: u32,
+    /// how the INTERVAL/PRIORITY are written in the source (0..=5); same meaning, different syntax
+    pub style: u8,
 }
 
 #[derive(Clone, Debug)]
@@ -45,6 +47,7 @@ pub fn gen_case(rng: &mut Rng, cycles: usize) -> Case {
                 None
             },
             priority: if equal_prio { 1 } else { rng.below(4) as u32 },
+            style: rng.below(6) as u8,
         })
         .collect();
     let nprogs = 1 + rng.below(ntasks as u64 + 2) as usize;
@@ -109,9 +112,23 @@ pub fn render_source(case: &Case) -> String {
             Some(v) => format!("SINGLE := sv{v}, "),
             None => String::new(),
         };
+        // equivalent spellings of the same duration / defaults, to cover the CONFIGURATION lowering
+        let ms = t.interval_ms;
+        let interval = match t.style {
+            1 => format!("TIME#{ms}ms"),
+            2 => format!("T#{}us", ms * 1000),
+            3 if ms >= 2 => format!("T#{}ms{}us", ms - 1, 1000),
+            4 => format!("t#{ms}MS"),
+            _ => format!("T#{ms}ms"),
+        };
+        let interval_part = if t.style == 5 && ms == 0 && t.single.is_some() {
+            String::new() // INTERVAL omitted: defaults to T#0ms
+        } else {
+            format!("INTERVAL := {interval}, ")
+        };
         s.push_str(&format!(
-            "TASK T{i} ({single}INTERVAL := T#{}ms, PRIORITY := {});\n",
-            t.interval_ms, t.priority
+            "TASK T{i} ({single}{interval_part}PRIORITY := {});\n",
+            t.priority
         ));
     }
     for (p, t) in case.prog_task.iter().enumerate() {
